@@ -114,31 +114,86 @@ def _subst(e, m):
     return e
 
 
+def callees_of(lib, fn):
+    """(call node, callee body-holder, parameter list) for calls in fn to library functions with a body and to local lambdas."""
+    lambdas = {}
+    for st in C.walk_stmt(fn["body"]):
+        if st.get("k") == "Decl":
+            for d in st["d"]:
+                i0 = C.strip_casts(d["init"]) if d.get("init") is not None else None
+                while i0 is not None and i0.get("k") == "Ctor" and len(i0["a"]) == 1:
+                    i0 = C.strip_casts(i0["a"][0])
+                if i0 is not None and i0.get("k") == "Lambda":
+                    lambdas[d["id"]] = i0
+    out = []
+    seen = set()
+    for x in C.walk_stmt(fn["body"]):
+        if x.get("k") != "Call" or id(x) in seen:
+            continue
+        seen.add(id(x))
+        lam = None
+        for key in ("obj", "callee"):
+            o = C.strip_casts(x.get(key)) if x.get(key) is not None else None
+            if o is not None and o.get("k") == "Ref" and o.get("id") in lambdas:
+                lam = lambdas[o["id"]]
+        if lam is not None and len(lam["params"]) == len(x["a"]):
+            out.append((x, lam["body"], lam["params"]))
+        elif x.get("fn") and not x.get("op"):
+            cands = [d for d in lib.decls if d["kind"] == "function" and d.get("body") is not None and
+                     d["full"].split("(")[0] == x["fn"] and len(d["params"]) == len(x["a"]) and not d["full"].startswith("std::")]
+            if cands:
+                out.append((x, cands[0]["body"], cands[0]["params"]))
+    return out
+
+
+def dump_loops(body):
+    """[(loop, bound expr, container expr)] for `for (i = 0; i < B; ++i) ... write(M[i])` in a statement tree"""
+    out = []
+    for st in C.walk_stmt(body):
+        if st.get("k") != "For" or st.get("c") is None:
+            continue
+        c = C.strip_casts(st["c"])
+        if not (c.get("k") == "Bin" and c["op"] == "<"):
+            continue
+        lv = C.strip_casts(c["a"])
+        if lv.get("k") != "Ref":
+            continue
+        for x in C.walk_stmt(st["body"]):
+            if x.get("k") == "Call" and x.get("n") == "write" and x["a"]:
+                a0 = C.strip_casts(x["a"][0])
+                base = idx = None
+                if a0.get("k") == "Call" and a0.get("op") == "[]" and a0.get("obj") is not None and a0["a"]:
+                    base, idx = a0["obj"], a0["a"][0]
+                elif a0.get("k") == "Idx":
+                    base, idx = a0["a"], a0["i"]
+                if base is not None and C.strip_casts(idx).get("id") == lv.get("id"):
+                    out.append((st, c["b"], base))
+    return out
+
+
+def resizes(body):
+    out = []
+    for x in C.walk_stmt(body):
+        if x.get("k") == "Call" and x.get("n") == "resize" and x.get("obj") is not None and x["a"]:
+            out.append((x, x["obj"], x["a"][0]))
+    return out
+
+
 def rule_R6(chk, lib, W, cls_records):
     n = 0
     for cls, wfns in sorted(W.items()):
         wfn = wfns[0]
-        # loops of the writer that dump elements of a vector member
+        # loops of the writer (and of helpers it hands the tables to) that dump elements of a vector member
         dumped = {}
-        for st in C.walk_stmt(wfn["body"]):
-            if st.get("k") != "For" or st.get("c") is None:
-                continue
-            c = C.strip_casts(st["c"])
-            if not (c.get("k") == "Bin" and c["op"] == "<"):
-                continue
-            lv = C.strip_casts(c["a"])
-            if lv.get("k") != "Ref":
-                continue
-            for x in C.walk_stmt(st["body"]):
-                if x.get("k") == "Call" and x.get("n") == "write" and x["a"]:
-                    a0 = C.strip_casts(x["a"][0])
-                    base = idx = None
-                    if a0.get("k") == "Call" and a0.get("op") == "[]" and a0.get("obj") is not None and a0["a"]:
-                        base, idx = a0["obj"], a0["a"][0]
-                    elif a0.get("k") == "Idx":
-                        base, idx = a0["a"], a0["i"]
-                    if base is not None and C.member_name(base) and C.strip_casts(idx).get("id") == lv.get("id"):
-                        dumped.setdefault(C.member_name(base), (st, c["b"]))
+        for loop, bound, base in dump_loops(wfn["body"]):
+            if C.member_name(base):
+                dumped.setdefault(C.member_name(base), (loop, bound))
+        for call, cbody, cparams in callees_of(lib, wfn):
+            m = {p["id"]: a for p, a in zip(cparams, call["a"]) if "id" in p}
+            for loop, bound, base in dump_loops(cbody):
+                b0 = C.strip_casts(base)
+                if b0.get("k") == "Ref" and b0.get("id") in m and C.member_name(m[b0["id"]]):
+                    dumped.setdefault(C.member_name(m[b0["id"]]), (call, _subst(bound, m)))
         if not dumped:
             continue
         # primary constructors of the class
@@ -159,10 +214,24 @@ def rule_R6(chk, lib, W, cls_records):
                         x0 = C.strip_casts(x0["a"][0])
                     if x0 is not None and x0.get("k") == "Ref" and "id" in x0 and ini.get("member"):
                         p2m[x0["id"]] = ini["member"]
-                for x in C.walk_stmt(ct["body"]):
-                    if x.get("k") == "Call" and x.get("n") == "resize" and x.get("obj") is not None and \
-                            C.member_name(x["obj"]) == member and x["a"]:
-                        sizes.append((ct, p2m, x["a"][0], x))
+                for x, obj, sz in resizes(ct["body"]):
+                    if C.member_name(obj) == member:
+                        sizes.append((ct, p2m, sz, x))
+                for call, cbody, cparams in callees_of(lib, ct):
+                    m = {p["id"]: a for p, a in zip(cparams, call["a"]) if "id" in p}
+                    for x, obj, sz in resizes(cbody):
+                        o0 = C.strip_casts(obj)
+                        if o0.get("k") == "Ref" and o0.get("id") in m and C.member_name(m[o0["id"]]) == member:
+                            # locals of the callee that the size depends on
+                            cdefs = {}
+                            for st_ in C.walk_stmt(cbody):
+                                if st_.get("k") == "Decl":
+                                    for d_ in st_["d"]:
+                                        if d_.get("init") is not None:
+                                            cdefs[d_["id"]] = d_["init"]
+                            sz2 = _subst(_subst(sz, cdefs), m)
+                            sz2 = _subst(sz2, m)
+                            sizes.append((ct, p2m, sz2, call))
                 for ini in ct.get("inits") or []:
                     if ini.get("member") == member and ini.get("x") is not None:
                         x0 = C.strip_casts(ini["x"])
